@@ -67,6 +67,10 @@ pub enum UpTcp {
     Twice,
     /// reply after this delay
     Slow { delay_ms: u64 },
+    /// hold the reply until the next query arrives on the connection (up to 40 ms), then write
+    /// this reply and a strict prefix of the next one in one go and close (or reset): the
+    /// connection dies inside the second of two pipelined replies
+    GlueNext { keep_permille: u16, reset: bool },
 }
 
 #[derive(Clone, Debug, Serialize, Deserialize)]
@@ -413,6 +417,31 @@ pub fn build_answer(spec: &AnsSpec, q: &(Name, u16, u16), serial: u32, id: u16) 
                 0 => m.answer.push(rr),
                 1 => m.authority.push(rr),
                 _ => m.additional.push(rr),
+            }
+        }
+    }
+    {
+        /* a ladder of names, each one label longer than the one before (zone cuts from the top
+         * down, or a chain of reverse-zone delegations): a compressor that always points at the
+         * longest suffix written so far emits one pointer hop per rung, so expanding the last
+         * name takes as many hops as there are rungs */
+        let mut k = Rng::new(spec.seed, "name-ladder");
+        if spec.share_names && spec.pad == 0 && spec.steer_total.is_none() && k.chance(0.06) {
+            let mut name: Vec<Vec<u8>> = qn.0[qn.0.len().saturating_sub(1)..].to_vec();
+            /* the deepest name, with the serial label in front, stays within 255 octets */
+            let most = (255 - 1 - name.iter().map(|l| l.len() + 1).sum::<usize>() - 12) / 2;
+            let rungs = (*k.pick(&[3usize, 8, 9, 10, 11, 12, 13, 14, 20, 40, 100, 127])).min(most);
+            for i in 0..rungs {
+                name.insert(0, vec![b'a' + (i % 26) as u8]);
+                let owner = Name(name.clone());
+                let rr = if k.chance(0.5) {
+                    Rr { name: owner, rtype: T_NS, class: 1, ttl: spec.fixed_ttl.max(1), rdata: RData::Name(with_serial(Name(name.clone()))) }
+                } else {
+                    let mut d = vec![0x20, 0x01, 0x0d, 0xb8, 0, 0, 0, 0, 0, 0, 0, 0];
+                    d.extend_from_slice(&ser_bytes);
+                    Rr { name: owner, rtype: T_AAAA, class: 1, ttl: spec.fixed_ttl.max(1), rdata: RData::Raw(d) }
+                };
+                m.authority.push(rr);
             }
         }
     }
@@ -808,6 +837,9 @@ pub fn generate(seed: u64, g: &GenB) -> PlanB {
             p.queries.push(q);
         }
     }
+    if faulty {
+        add_tcp_glue(&mut p, seed);
+    }
     if shape == "cache" {
         add_cache_followups(&mut p, &mut r);
     }
@@ -957,6 +989,70 @@ fn add_pipelines(p: &mut PlanB, r: &mut Rng) {
 /// then follow-up queries are aimed at the instants around which erbium's idle timers of
 /// the upstream connection (120 s after its last send / last reply) run out, and are
 /// answered slowly.
+/// Two TCP clients ask at the same instant through a route whose upstream accepts connections,
+/// so that erbium pipelines both on its one connection to that upstream; the upstream answers
+/// the first in full and the second only in part, in a single write, and hangs up.  Long after
+/// that (and after every other fault), further TCP-path queries through the same route must get
+/// their answers: nothing of the dead connection's receive state may leak into the next one.
+fn add_tcp_glue(p: &mut PlanB, seed: u64) {
+    let mut k = Rng::new(seed, "plan-b-tcp-glue");
+    if !k.chance(0.4) {
+        return;
+    }
+    let cands: Vec<usize> = p
+        .queries
+        .iter()
+        .enumerate()
+        .filter(|(_, q)| {
+            q.raw.is_none()
+                && !q.after_faults
+                && matches!(p.route_for(&q.qname), Some(RouteKind::Forward(u)) if p.upstream_tcp[*u] == "accept")
+        })
+        .map(|(i, _)| i)
+        .collect();
+    if cands.is_empty() {
+        return;
+    }
+    let template = p.queries[*k.pick(&cands)].clone();
+    let t_last = p.queries.iter().map(|q| q.at_ms).max().unwrap();
+    let rounds = k.range(1, 2);
+    let mut t = template.at_ms + k.range(0, 2000);
+    let mut n = 0u16;
+    let mut mk = |p: &mut PlanB, k: &mut Rng, at_ms: u64, label: &str, up_tcp: UpTcp, after: bool| {
+        let mut q = template.clone();
+        n += 1;
+        q.at_ms = at_ms;
+        q.src_port = 700 + n;
+        q.id = k.below(65536) as u16;
+        q.qname = Name::parse(&format!("{}{}.{}", label, n, template.qname.to_text()));
+        q.qtype = 1;
+        q.qclass = 1;
+        q.rd = true;
+        q.tcp = true;
+        q.tcp_split = vec![];
+        q.dup_in = false;
+        q.edns = None;
+        q.up = UpBehaviour::Normal { delay_ms: 5 };
+        q.up_tcp = up_tcp;
+        q.ans = AnsSpec { seed: k.next_u64(), rcode: 0, counts: [k.range(1, 6) as u16, 1, 1], ttl_mode: 1, fixed_ttl: 60, pad: 0, compress: true, share_names: true, with_opt: true, steer_total: None };
+        q.after_faults = after;
+        p.queries.push(q);
+    };
+    for _ in 0..rounds {
+        let glue = UpTcp::GlueNext { keep_permille: *k.pick(&[1u16, 30, 500, 500, 900, 999]), reset: k.chance(0.4) };
+        for _ in 0..k.range(2, 3) {
+            mk(p, &mut k, t, "glue", glue.clone(), false);
+        }
+        /* a reconnect soon after, while other faults may still be going on */
+        let again = t + k.range(500, 4000);
+        mk(p, &mut k, again, "reglue", UpTcp::Normal, false);
+        t += k.range(5_000, 200_000);
+    }
+    for i in 0..3u64 {
+        mk(p, &mut k, t_last.max(t) + 1_000_000 + i * 2_000, "unglued", UpTcp::Normal, true);
+    }
+}
+
 fn add_tcp_idle_followups(p: &mut PlanB, r: &mut Rng) {
     for q in p.queries.iter_mut() {
         q.tcp = true;
